@@ -131,3 +131,7 @@ mod test {
         assert_eq!(c.next(), None);
     }
 }
+
+#[cfg(kani)]
+#[path = "/verif/kani/utils.rs"]
+mod verif_kani;
